@@ -18,6 +18,7 @@ pub struct FileCfg {
     pub known: bool,
     pub signal: String,
     pub seed: u64,
+    pub rate: u32,
     /// a file made elsewhere (FlacGen): path of a JSON object {bytes, pcm (interleaved), frames: [[first sample, offset, pcm frames]]}
     pub given: Option<String>,
 }
@@ -34,6 +35,7 @@ impl FileCfg {
             known: v["known"].as_bool().unwrap_or(true),
             signal: v["signal"].as_str().unwrap_or("noise").to_string(),
             seed: v["seed"].as_u64().unwrap_or(7),
+            rate: v["rate"].as_u64().unwrap_or(44100) as u32,
             given: v["given"].as_str().map(|s| s.to_string()),
         }
     }
@@ -50,7 +52,7 @@ impl FileCfg {
         }
         let mut rng = Rng::new(self.seed);
         let pcm = gen_pcm(&self.signal, &mut rng, self.channels as usize, self.bps, self.frames);
-        let plain = encode_plain(&pcm, self.channels, self.bps, 44100, self.block_size, true, None)
+        let plain = encode_plain(&pcm, self.channels, self.bps, self.rate, self.block_size, true, None)
             .expect("encode test file");
         (with_seektable(&plain, &self.seek, !self.known), pcm)
     }
